@@ -182,7 +182,7 @@
     #[kani::proof]
     fn h6_2_constants() {
         assert!(MAX_ROOT_DIR_LENGTH == 16257);
-        assert!(HEADER_BYTES == 127);
+        assert!(crate::header::HEADER_BYTES == 127);
         unsafe { ROOT_BUDGET = 0; }
         assert!(crate::verif_io::root_budget(MAX_ROOT_DIR_LENGTH) == 16257);
         kani::cover!(true);
